@@ -38,6 +38,47 @@ def _deb(var, adjust=None):
         return ISIMIP.from_variable(var, bias_correct_frequencies_of_values_beyond_thresholds=bool(adjust))
 
 
+def has_lt(deb):
+    """the property's own reading of 'has a lower threshold' (not the instance's flag, which a run may have frozen)"""
+    t = deb.lower_threshold
+    return t is not None and t > -np.inf
+
+
+def has_ut(deb):
+    t = deb.upper_threshold
+    return t is not None and t < np.inf
+
+
+SEQ_NOTE = "constructed without bounds/thresholds, used once (flags read, one _apply_on_window), then bounds and thresholds assigned by attribute"
+
+
+def seq_deb(var, adjust, **kw):
+    """instance SEQUENCE: construct the variable's debiaser without bounds / thresholds -> use it once -> assign the
+    variable's bounds and thresholds by attribute (`debiaser.<setting> = value`, the pattern of the ISIMIP docstring).
+    Must behave like a freshly constructed `_deb(var, adjust)`."""
+    ISIMIP = _isimip()
+    fresh = _deb(var, adjust) if not kw else None
+    with warnings.catch_warnings(), np.errstate(all="ignore"):
+        warnings.simplefilter("ignore")
+        target = fresh if fresh is not None else ISIMIP.from_variable(var, bias_correct_frequencies_of_values_beyond_thresholds=bool(adjust), **kw)
+        d = ISIMIP.from_variable(var, lower_bound=-np.inf, lower_threshold=-np.inf, upper_bound=np.inf, upper_threshold=np.inf,
+                                 bias_correct_frequencies_of_values_beyond_thresholds=bool(adjust),
+                                 **{k: v for k, v in kw.items() if k not in ("lower_bound", "lower_threshold", "upper_bound", "upper_threshold")})
+        _ = (d.has_lower_threshold, d.has_upper_threshold, d.has_lower_bound, d.has_upper_bound, d.has_threshold, d.has_bound)
+        x = np.linspace(0.2, 0.8, 12) if var != "hurs" else np.linspace(20.0, 80.0, 12)
+        try:  # first use: plain quantile mapping, result irrelevant
+            d._apply_on_window(x.copy(), x[::-1].copy() * 0.9, x.copy() * 1.1)
+        except Exception:  # noqa: BLE001
+            pass
+        try:
+            d.step6(x.copy(), x.copy(), x[::-1].copy() * 0.9, x.copy() * 1.1)
+        except Exception:  # noqa: BLE001
+            pass
+        d.lower_bound, d.lower_threshold = target.lower_bound, target.lower_threshold
+        d.upper_bound, d.upper_threshold = target.upper_bound, target.upper_threshold
+    return d
+
+
 def tok(x):
     """exact token of a float for the driver (values are opaque to the assignment model)"""
     x = float(x)
@@ -301,18 +342,19 @@ def mask_cases(nmax, cs, res):
 VARS = ("pr", "hurs", "prsnratio")
 
 
-def gen_series(rng, var, deb, n, frac_lo, frac_hi, wet_scale=1.0):
+def gen_series(rng, var, deb, n, frac_lo, frac_hi, wet_scale=1.0, ties=False):
     """n values: round(frac_lo*n) beyond the lower threshold, round(frac_hi*n) beyond the upper one, rest strictly
     between the thresholds (moderate, exactly representable values)"""
     k_lo = min(n, int(round(frac_lo * n)))
-    k_hi = min(n - k_lo, int(round(frac_hi * n))) if deb.has_upper_threshold else 0
+    k_hi = min(n - k_lo, int(round(frac_hi * n))) if has_ut(deb) else 0
     lt, lb = deb.lower_threshold, deb.lower_bound
     vals = []
     for _ in range(k_lo):
-        vals.append(rng.choice([lb, lb, lt, lt / 2 if var == "pr" else (2.0**-8 if var == "hurs" else 2.0**-14)]))
+        # `ties`: every beyond-threshold value lies exactly ON the threshold (x <= threshold counts as beyond)
+        vals.append(lt if ties else rng.choice([lb, lb, lt, lt, lt / 2 if var == "pr" else (2.0**-8 if var == "hurs" else 2.0**-14)]))
     for _ in range(k_hi):
         ub, ut = deb.upper_bound, deb.upper_threshold
-        vals.append(rng.choice([ub, ub, ut, ub - (2.0**-8 if var == "hurs" else 2.0**-14)]))
+        vals.append(ut if ties else rng.choice([ub, ub, ut, ut, ub - (2.0**-8 if var == "hurs" else 2.0**-14)]))
     for _ in range(n - k_lo - k_hi):
         if var == "pr":
             v = rng.randint(1, 3200) / 64 * wet_scale
@@ -366,19 +408,23 @@ def recording(rec):
             setattr(ISIMIP, k, v)
 
 
-def expected_counts(deb, obs, cmh, cmf):
-    """round(n * P) per bound, P from the real helper functions (the property's right-hand side)"""
+def expected_counts(deb, obs, cmh, cmf, n=None):
+    """round(n * P) per bound: the property's right-hand side, computed from its own definitions — a value is
+    beyond the lower (upper) threshold iff x <= lower_threshold (x >= upper_threshold), the variable has a threshold
+    iff the attribute is finite *now*; only the four-branch formula is the real `_step6_get_P_obs_future` (checked
+    separately on the grids)."""
     ISIMIP = _isimip()
-    pct = ISIMIP._step6_calculate_percent_values_beyond_threshold
-    n = cmf.size
+    n = cmf.size if n is None else n
     out = {}
-    for side, has, mk in (("lower", deb.has_lower_threshold, deb._get_mask_for_values_beyond_lower_threshold),
-                          ("upper", deb.has_upper_threshold, deb._get_mask_for_values_beyond_upper_threshold)):
+    for side, has in (("lower", has_lt(deb)), ("upper", has_ut(deb))):
         if not has:
             out[side] = (0, None)
             continue
-        Po, Ph, Pf = pct(mk(obs)), pct(mk(cmh)), pct(mk(cmf))
-        P = ISIMIP._step6_get_P_obs_future(Po, Ph, Pf) if deb.bias_correct_frequencies_of_values_beyond_thresholds else Po
+        if side == "lower":
+            fr = [np.float64((x <= deb.lower_threshold).sum()) / x.size for x in (obs, cmh, cmf)]
+        else:
+            fr = [np.float64((x >= deb.upper_threshold).sum()) / x.size for x in (obs, cmh, cmf)]
+        P = ISIMIP._step6_get_P_obs_future(*fr) if deb.bias_correct_frequencies_of_values_beyond_thresholds else fr[0]
         out[side] = (round(n * P), float(P))
     return out
 
@@ -399,14 +445,14 @@ def run_step6(deb, obs, obsf, cmh, cmf):
     return np.asarray(out, dtype=float), rec, raw, exp
 
 
-def step6_oracle(var, adj, deb, obs, obsf, cmh, cmf, out, rec, exp, problems, res):
+def step6_oracle(var, adj, deb, obs, obsf, cmh, cmf, out, rec, exp, problems, res, extra=None):
     """count of outputs equal to the bounds against round(n * P)"""
     n = cmf.size
     lo, hi = float(deb.lower_bound), float(deb.upper_bound)
     cnt_lo, cnt_hi = int((out == lo).sum()), int((out == hi).sum())
     (el, Pl), (eu, Pu) = exp["lower"], exp["upper"]
     case = {"kind": "step6", "variable": var, "adjust": adj, "obs_hist": obs.tolist(), "obs_future": obsf.tolist(),
-            "cm_hist": cmh.tolist(), "cm_future": cmf.tolist()}
+            "cm_hist": cmh.tolist(), "cm_future": cmf.tolist(), **(extra or {})}
     info = {"n": n, "P_lower": Pl, "P_upper": Pu, "round(n*P_lower)": el, "round(n*P_upper)": eu,
             "outputs_at_lower_bound": cnt_lo, "outputs_at_upper_bound": cnt_hi}
     for P in (Pl, Pu):
@@ -441,9 +487,24 @@ def step6_cases(rng, count, nmax, cs, problems, res):
         var = VARS[i % 3]
         adj = 0 if rng.random() < 0.25 else 1
         deb = debs[(var, adj)]
+        # instance sequences: a third of the runs use a debiaser that was used before its thresholds were assigned;
+        # every eighth one whose (dyadic) thresholds differ from the variable's defaults
+        seq, custom = rng.random() < 0.34, None
+        if i % 8 == 5:
+            custom = ({"lower_threshold": 0.125} if var == "pr" else
+                      {"lower_threshold": 2.0, "upper_threshold": 98.0} if var == "hurs" else {"lower_threshold": 2.0**-5, "upper_threshold": 1 - 2.0**-5})
+        if seq or custom:
+            try:
+                deb_fresh = deb if not custom else _isimip().from_variable(var, bias_correct_frequencies_of_values_beyond_thresholds=bool(adj), **custom)
+                deb = seq_deb(var, adj, **(custom or {})) if seq else deb_fresh
+            except Exception as ex:  # noqa: BLE001
+                problems.append(("assigning bounds/thresholds to a used debiaser raises " + type(ex).__name__,
+                                 {"kind": "sequence", "variable": var, "adjust": adj, "custom": custom}))
+                continue
+        ties = rng.random() < 0.25
         kind = rng.choice(["free", "free", "free", "overlap", "same-hist-future", "same-hist-obs", "tiny"])
         n_o, n_h, n_f = (rng.randint(1, 6) for _ in range(3)) if kind == "tiny" else (rng.randint(6, nmax) for _ in range(3))
-        two = deb.has_upper_threshold
+        two = has_ut(deb)
 
         def fr():
             a = rng.choice(FRACS)
@@ -457,16 +518,23 @@ def step6_cases(rng, count, nmax, cs, problems, res):
             f_f, n_f = f_h, n_h
         if kind == "same-hist-obs":
             f_h, n_h = f_o, n_o
-        obs = gen_series(rng, var, deb, n_o, *f_o)
-        cmh = gen_series(rng, var, deb, n_h, *f_h, wet_scale=rng.choice([1.0, 0.7, 1.3]))
-        cmf = gen_series(rng, var, deb, n_f, *f_f, wet_scale=rng.choice([1.0, 0.8, 1.5]))
+        obs = gen_series(rng, var, deb, n_o, *f_o, ties=ties)
+        cmh = gen_series(rng, var, deb, n_h, *f_h, wet_scale=rng.choice([1.0, 0.7, 1.3]), ties=ties)
+        cmf = gen_series(rng, var, deb, n_f, *f_f, wet_scale=rng.choice([1.0, 0.8, 1.5]), ties=ties)
         if rng.random() < 0.08:
             obsf = gen_series(rng, var, deb, n_o, 1.0, 0.0)  # nothing between the thresholds to map to
         else:
             a, b = fr()
             obsf = gen_series(rng, var, deb, max(n_o, 4), min(a, 0.7), min(b, 0.2))
-        case = {"variable": var, "adjust": adj, "kind": kind, "n": [n_o, n_h, n_f],
+        case = {"variable": var, "adjust": adj, "kind": kind, "n": [n_o, n_h, n_f], "values_on_threshold_only": ties,
                 "frac_beyond": [list(map(float, f_o)), list(map(float, f_h)), list(map(float, f_f))]}
+        if seq:
+            case["sequence"] = SEQ_NOTE
+            res.extra["step6_sequence_runs"] = res.extra.get("step6_sequence_runs", 0) + 1
+        if custom:
+            case["custom"] = custom
+        if ties:
+            res.extra["step6_threshold_tie_runs"] = res.extra.get("step6_threshold_tie_runs", 0) + 1
         try:
             out, rec, raw, exp = run_step6(deb, obs, obsf, cmh, cmf)
         except Exception as ex:  # noqa: BLE001
@@ -474,7 +542,22 @@ def step6_cases(rng, count, nmax, cs, problems, res):
             res.notes.append(f"step6 raised {type(ex).__name__}: {str(ex)[:120]} on {case}") if len(res.notes) < 5 else None
             continue
         res.extra["step6_runs"] += 1
-        step6_oracle(var, adj, deb, obs, obsf, cmh, cmf, out, rec, exp, problems, res)
+        step6_oracle(var, adj, deb, obs, obsf, cmh, cmf, out, rec, exp, problems, res,
+                     extra={k: case[k] for k in ("sequence", "custom") if k in case})
+        if seq:  # the reconfigured instance must give what a freshly constructed one gives
+            try:
+                with warnings.catch_warnings(), np.errstate(all="ignore"):
+                    warnings.simplefilter("ignore")
+                    out_f = np.asarray(deb_fresh.step6(obs.copy(), obsf.copy(), cmh.copy(), cmf.copy()), dtype=float)
+                same = out_f.shape == out.shape and np.array_equal(out_f, out, equal_nan=True)
+            except Exception:  # noqa: BLE001
+                same = True
+            if not same:
+                lo_ = float(deb_fresh.lower_bound)
+                problems.append(("step6: a used debiaser with bounds/thresholds assigned afterwards differs from a freshly constructed one",
+                                 {"kind": "step6", "variable": var, "adjust": adj, "sequence": SEQ_NOTE, **({"custom": custom} if custom else {}),
+                                  "obs_hist": obs.tolist(), "obs_future": obsf.tolist(), "cm_hist": cmh.tolist(), "cm_future": cmf.tolist(),
+                                  "outputs_at_lower_bound": int((out == lo_).sum()), "fresh_instance_outputs_at_lower_bound": int((out_f == lo_).sum())}))
         if not all(k in rec for k in ("nl", "nu", "mask_l", "mask_u")):
             cs.add("nmid 0 0 0", "step6-instrumentation", case, lambda g: "step6 did not call the two mask functions")
             continue
@@ -484,8 +567,8 @@ def step6_cases(rng, count, nmax, cs, problems, res):
         nl, nu = rec["nl"], rec["nu"]
         res.count((var, adj, kind, min(n, 12), int(nl) * 5 // (n + 1), int(nu) * 5 // (n + 1), raw[0] + raw[1] > n),
                   0 < nl + nu, sample={**case, "n_lower": int(nl), "n_upper": int(nu), "raw": raw})
-        lthr = tok(deb.lower_threshold) if deb.has_lower_threshold else "none"
-        uthr = tok(deb.upper_threshold) if deb.has_upper_threshold else "none"
+        lthr = tok(deb.lower_threshold) if has_lt(deb) else "none"
+        uthr = tok(deb.upper_threshold) if has_ut(deb) else "none"
 
         def cmp_counts(g, nl=nl, nu=nu, raw=raw):
             parts = g.split(" ")
@@ -530,15 +613,25 @@ def month_cases(rng, count, problems, res):
     for i in range(count):
         var = VARS[i % 3]
         adj = 0 if rng.random() < 0.3 else 1
-        with warnings.catch_warnings():
-            warnings.simplefilter("ignore")
-            deb = _isimip().from_variable(var, running_window_mode=False, bias_correct_frequencies_of_values_beyond_thresholds=bool(adj))
+        seq = i % 2 == 1  # every second run: instance sequence (used before the thresholds were assigned)
+        ties = rng.random() < 0.34
+        try:
+            with warnings.catch_warnings():
+                warnings.simplefilter("ignore")
+                deb = (seq_deb(var, adj, running_window_mode=False) if seq else
+                       _isimip().from_variable(var, running_window_mode=False, bias_correct_frequencies_of_values_beyond_thresholds=bool(adj)))
+        except Exception as ex:  # noqa: BLE001
+            problems.append(("assigning bounds/thresholds to a used debiaser raises " + type(ex).__name__,
+                             {"kind": "sequence", "variable": var, "adjust": adj}))
+            continue
+        if seq:
+            res.extra["month_sequence_runs"] = res.extra.get("month_sequence_runs", 0) + 1
         t_o, t_h, t_f = dates(1980, rng.randint(2, 3)), dates(1981, rng.randint(2, 3)), dates(2050, rng.randint(2, 3))
-        two = deb.has_upper_threshold
+        two = has_ut(deb)
         fr = [(min(rng.choice(FRACS), 0.6), rng.choice([0.0, 0.05, 0.2, 0.35]) if two else 0.0) for _ in range(3)]
-        obs = gen_series(rng, var, deb, t_o.size, *fr[0])
-        cmh = gen_series(rng, var, deb, t_h.size, *fr[1], wet_scale=rng.choice([1.0, 0.7, 1.3]))
-        cmf = gen_series(rng, var, deb, t_f.size, *fr[2], wet_scale=rng.choice([1.0, 0.8, 1.5]))
+        obs = gen_series(rng, var, deb, t_o.size, *fr[0], ties=ties)
+        cmh = gen_series(rng, var, deb, t_h.size, *fr[1], wet_scale=rng.choice([1.0, 0.7, 1.3]), ties=ties)
+        cmf = gen_series(rng, var, deb, t_f.size, *fr[2], wet_scale=rng.choice([1.0, 0.8, 1.5]), ties=ties)
         np.random.seed(rng.randint(0, 2**31 - 1))  # step 4 randomises the values beyond the thresholds
         rec = {"all_mid": []}
         try:
@@ -570,10 +663,142 @@ def month_cases(rng, count, problems, res):
             ok = (got[0] + got[1] == c.size) if el + eu > c.size else (got == (el, eu))
             if not ok:
                 problems.append(("apply_location (month mode): outputs at the lower/upper bound in a month != round(n * P)",
-                                 {"kind": "month", "variable": var, "adjust": adj, "month": m, "obs_hist": a.tolist(), "cm_hist": b.tolist(),
+                                 {"kind": "month", "variable": var, "adjust": adj, "month": m, **({"sequence": SEQ_NOTE} if seq else {}),
+                                  "obs_hist": a.tolist(), "cm_hist": b.tolist(),
                                   "cm_future": c.tolist(), "P_lower": Pl, "P_upper": Pu, "round(n*P_lower)": el, "round(n*P_upper)": eu,
                                   "outputs_at_lower_bound": got[0], "outputs_at_upper_bound": got[1]}))
                 break
+
+
+# ------------------------------------------------------------------ 7. missing values: two encodings of the same data
+def _masked_inputs(fi):
+    """rebuild both encodings from the recorded integer data + gap masks: (a) float arrays with NaN gaps,
+    (b) integer-typed numpy masked arrays whose masked cells carry the fill value"""
+    enc_nan, enc_int = [], []
+    for k in ("obs", "cm_hist", "cm_future"):
+        data = np.array(fi[k + "_data"], dtype=np.int16)
+        gaps = np.array(fi[k + "_gaps"], dtype=bool)
+        a = data.astype(float)
+        a[gaps] = np.nan
+        enc_nan.append(a)
+        d = data.copy()
+        d[gaps] = fi["fill_value"]
+        enc_int.append(np.ma.masked_array(d, mask=gaps, fill_value=fi["fill_value"]) if gaps.any() else d)
+    return enc_nan, enc_int
+
+
+def _masked_run(fi, problems, res):
+    """`Debiaser.apply` (month mode, impute_missing_values=True) on both encodings with the same numpy seed.
+    (i) both encodings are the same data -> the same outputs, in particular the same counts at the bounds in every
+    month and cell; (ii) in cell 0 every reported value of a series with gaps is strictly between the thresholds, so
+    the imputed values are too, whatever is drawn, and the count must be round(n * P) with the frequencies of the
+    valid cells only (guard as everywhere: mapped values strictly inside the bounds)."""
+    import datetime
+
+    var, adj = fi["variable"], fi["adjust"]
+    with warnings.catch_warnings():
+        warnings.simplefilter("ignore")
+        deb = _isimip().from_variable(var, running_window_mode=False, impute_missing_values=True,
+                                      bias_correct_frequencies_of_values_beyond_thresholds=bool(adj), **fi["settings"])
+    enc_nan, enc_int = _masked_inputs(fi)
+
+    def dates(y0, n):
+        d0 = datetime.date(y0, 1, 1)
+        return np.array([d0 + datetime.timedelta(days=k) for k in range(n)], dtype=object)
+
+    t = [dates(y0, a.shape[0]) for y0, a in zip((1980, 1981, 2050), enc_nan)]
+    outs, recs = [], []
+    for enc in (enc_nan, enc_int):
+        rec = {"all_mid": []}
+        np.random.seed(fi["numpy_seed"])  # steps 2 and 4 draw random numbers: same draws for both encodings
+        with warnings.catch_warnings(), np.errstate(all="ignore"):
+            warnings.simplefilter("ignore")
+            with recording(rec):
+                o = deb.apply(*[x.copy() for x in enc], time_obs=t[0], time_cm_hist=t[1], time_cm_future=t[2], progressbar=False)
+        outs.append(np.asarray(np.ma.filled(o, np.nan) if isinstance(o, np.ma.MaskedArray) else o, dtype=float))
+        recs.append(rec)
+    lo, hi = float(deb.lower_bound), float(deb.upper_bound)
+    mon = [np.array([d.month for d in tt]) for tt in t]
+    info = {k: fi[k] for k in ("kind", "variable", "adjust", "settings", "fill_value", "numpy_seed", "obs_data", "obs_gaps",
+                               "cm_hist_data", "cm_hist_gaps", "cm_future_data", "cm_future_gaps")}
+    ncell = enc_nan[0].shape[2]
+    for cell in range(ncell):
+        for m in range(1, 13):
+            sel = mon[2] == m
+            c_nan = (int((outs[0][sel, 0, cell] == lo).sum()), int((outs[0][sel, 0, cell] == hi).sum()))
+            c_int = (int((outs[1][sel, 0, cell] == lo).sum()), int((outs[1][sel, 0, cell] == hi).sum()))
+            res.extra["masked_windows"] = res.extra.get("masked_windows", 0) + 1
+            res.count(("masked", var, adj, cell, m), True)
+            if c_nan != c_int:
+                problems.append(("apply: the same data given as integer masked arrays and as float arrays with NaN gaps give different "
+                                 "numbers of outputs at the lower/upper bound",
+                                 {**info, "cell": cell, "month": m, "outputs_at_bounds_nan_encoding": list(c_nan),
+                                  "outputs_at_bounds_masked_int_encoding": list(c_int)}))
+                return
+    # (ii) cell 0: count oracle with the frequencies of the valid cells
+    for which, out, rec in (("nan", outs[0], recs[0]), ("masked-int", outs[1], recs[1])):
+        if not all(lo < v < hi for mid in rec["all_mid"] for v in mid.tolist()):
+            res.extra["masked_guard_excluded"] = res.extra.get("masked_guard_excluded", 0) + 1
+            continue
+        for m in range(1, 13):
+            valid = []
+            for k, a in enumerate(enc_nan):
+                x = a[mon[k] == m, 0, 0]
+                valid.append(x[~np.isnan(x)])
+            n_m = int((mon[2] == m).sum())
+            if min(v.size for v in valid) == 0:
+                continue
+            exp = expected_counts(deb, *valid, n=n_m)
+            (el, Pl), (eu, Pu) = exp["lower"], exp["upper"]
+            o = out[mon[2] == m, 0, 0]
+            got = (int((o == lo).sum()), int((o == hi).sum()))
+            ok = (got[0] + got[1] == n_m) if el + eu > n_m else (got == (el, eu))
+            if not ok:
+                problems.append(("apply with missing values (" + which + " encoding): outputs at the lower/upper bound in a month != "
+                                 "round(n * P) of the valid cells' frequencies",
+                                 {**info, "cell": 0, "month": m, "encoding": which, "P_lower": Pl, "P_upper": Pu, "round(n*P_lower)": el,
+                                  "round(n*P_upper)": eu, "outputs_at_lower_bound": got[0], "outputs_at_upper_bound": got[1]}))
+                return
+
+
+def masked_cases(rng, count, problems, res):
+    """integer-valued data (pr in 1/10 mm with lower_threshold 1; hurs in whole percent) on a [t, 1, 2] grid.
+    Cell 0: the series with gaps report only values strictly between the thresholds; cell 1: they also report values
+    beyond the thresholds.  Masked cells carry a fill value that lies beyond the lower threshold (0 = 'dry')."""
+    for key in ("masked_runs", "masked_skipped"):
+        res.extra.setdefault(key, 0)
+    for i in range(count):
+        var = ("pr", "hurs")[i % 2]
+        adj = 0 if rng.random() < 0.25 else 1
+        settings = {"lower_bound": 0.0, "lower_threshold": 1.0} if var == "pr" else {}
+        hi_v = 300 if var == "pr" else 99
+        gappy = [True, rng.random() < 0.5, rng.random() < 0.5]  # obs always has gaps
+        fi = {"kind": "masked", "variable": var, "adjust": adj, "settings": settings, "fill_value": 0,
+              "numpy_seed": rng.randint(0, 2**31 - 1)}
+        for k, (name, y) in enumerate((("obs", 2), ("cm_hist", rng.randint(2, 3)), ("cm_future", rng.randint(2, 3)))):
+            n = 365 * y
+            data = np.zeros((n, 1, 2), dtype=np.int16)
+            gaps = np.zeros((n, 1, 2), dtype=bool)
+            for cell in range(2):
+                wet = np.array([rng.randint(5, hi_v) for _ in range(n)], dtype=np.int16)
+                u = np.array([rng.random() for _ in range(n)])
+                f_lo = rng.choice([0.1, 0.25, 0.4])
+                f_hi = rng.choice([0.0, 0.1, 0.2]) if var == "hurs" else 0.0
+                x = wet.copy()
+                if not (gappy[k] and cell == 0):  # cell 0 of a series with gaps: only values between the thresholds
+                    x[u < f_lo] = rng.choice([0, 0, 1]) if var == "pr" else 0
+                    x[u > 1 - f_hi] = 100
+                data[:, 0, cell] = x
+                if gappy[k]:
+                    gaps[:, 0, cell] = np.array([rng.random() < 0.2 for _ in range(n)])
+            fi[name + "_data"], fi[name + "_gaps"] = data.tolist(), gaps.tolist()
+        try:
+            _masked_run(fi, problems, res)
+            res.extra["masked_runs"] += 1
+        except Exception as ex:  # noqa: BLE001
+            res.extra["masked_skipped"] += 1
+            if len(res.notes) < 5:
+                res.notes.append(f"apply with missing values [{var}] raised {type(ex).__name__}: {str(ex)[:160]}")
 
 
 # ------------------------------------------------------------------ the check
@@ -637,6 +862,7 @@ def run(tier, res, force_search=False):
 
     # assembled pipeline (small budget always; larger when a tie is broken)
     month_cases(rng, (3 if quick else 30) * (3 if (mismatches or not lean_ok or force_search) else 1), problems, res)
+    masked_cases(rng, 2 if quick else 12, problems, res)
     if (mismatches or not lean_ok) and not problems:  # a tie is broken: widen the failing-input search on the real code
         cs2 = Cases()
         step6_cases(rng, 600, 120, cs2, problems, res)
@@ -695,15 +921,23 @@ def replay(data):
         if got != round(ms[2].size * P) or not 0 <= got <= ms[2].size:
             problems.append(("nr", fi))
     elif kind == "step6":
-        deb = _deb(fi["variable"], fi["adjust"])
+        custom = fi.get("custom") or {}
+        if fi.get("sequence"):
+            deb = seq_deb(fi["variable"], fi["adjust"], **custom)
+        elif custom:
+            deb = ISIMIP.from_variable(fi["variable"], bias_correct_frequencies_of_values_beyond_thresholds=bool(fi["adjust"]), **custom)
+        else:
+            deb = _deb(fi["variable"], fi["adjust"])
         obs, obsf, cmh, cmf = (np.array(fi[k], dtype=float) for k in ("obs_hist", "obs_future", "cm_hist", "cm_future"))
         out, rec, raw, exp = run_step6(deb, obs, obsf, cmh, cmf)
         step6_oracle(fi["variable"], fi["adjust"], deb, obs, obsf, cmh, cmf, out, rec, exp, problems, res)
         print(f"step6[{fi['variable']}]: outputs at lower/upper bound = {(out == deb.lower_bound).sum()}/{(out == deb.upper_bound).sum()}, "
               f"round(n*P) = {exp['lower'][0]}/{exp['upper'][0]}")
+    elif kind == "masked":
+        _masked_run(fi, problems, res)
     elif kind == "month":
         # the month's raw series, straight through step6 (obs_future := obs_hist): same counts as in the pipeline
-        deb = _deb(fi["variable"], fi["adjust"])
+        deb = seq_deb(fi["variable"], fi["adjust"]) if fi.get("sequence") else _deb(fi["variable"], fi["adjust"])
         obs, cmh, cmf = (np.array(fi[k], dtype=float) for k in ("obs_hist", "cm_hist", "cm_future"))
         out, rec, raw, exp = run_step6(deb, obs, obs, cmh, cmf)
         step6_oracle(fi["variable"], fi["adjust"], deb, obs, obs, cmh, cmf, out, rec, exp, problems, res)
